@@ -130,11 +130,6 @@ Definition lcase_prop_ok (c : lcase) : bool :=
       (lc_obs c)))).
 
 (* ---- end to end: the real binary started with --deny-domains / --mitm-domains, requests for target hosts ---- *)
-(* the reference identifies a fully qualified name with and without its trailing dot at the deny and the direct site
-   ("evil.test." is the host "evil.test"; /repo 36ee1cd, 47e9db6): the site is to say yes when the list matches either
-   form; the MITM filter judges the name as written *)
-Definition ref_forms (st : site) (h : str) : list str :=
-  match st with SiteDeny | SiteDirect => [h; trim_dot h] | SiteMitm => [h] end.
 Definition site_of (n : N) : site := if n =? 0 then SiteDeny else if n =? 1 then SiteDirect else SiteMitm.
 
 Record ucase := {
@@ -145,11 +140,6 @@ Record ucase := {
   (* bare target host name; for every reference form of it Go's regexp verdict of every rule alone;
      the site said yes (request denied / CONNECT intercepted) *)
 }.
-Definition hit_model (es : list (bool * rx)) (forms : list str) : option bool :=
-  fold_right (fun f acc => match match_entries the_shape es 0 f, acc with
-                           | Ans a, Some c => Some (a || c)
-                           | _, _ => None
-                           end) (Some false) forms.
 Definition ucase_model_ok (c : ucase) : bool :=
   uc_started c &&
   forallb (fun o => let '(host, _, yes) := o in
@@ -175,9 +165,7 @@ Record vcase := {
   (* bare target host; Go's regexp verdict of every deny rule / every direct rule alone;
      0 = denied, 1 = the origin was contacted directly, 2 = the request went to the upstream proxy *)
 }.
-Definition route_code (denied direct : bool) : N := if denied then 0 else if direct then 1 else 2.
-Definition model_hit (st : site) (es : list (bool * rx)) (host : str) : option bool :=
-  if is_nil es then Some false else hit_model es (site_forms st host).
+Definition model_hit := site_verdict.
 Definition vcase_model_ok (c : vcase) : bool :=
   vc_started c &&
   forallb (fun o => let '(host, _, _, code) := o in
